@@ -91,12 +91,13 @@ func NewNgReader(r io.Reader, options NgReaderOptions) (*NgReader, error) {
 	}
 
 	// pcapng _must_ start with a section header
-	if err = reader.readBlock(); err != nil {
-		return nil, err
-	}
-
-	if reader.currentBlock.typ != ngBlockTypeSectionHeader {
+	err = reader.readBlock()
+	if reader.currentBlock.typ != ngBlockTypeSectionHeader && (err == nil || errors.Is(err, errNgInvalidBlockLength)) {
+		// the magic tells more about a file in a different format than its supposed block length
 		return nil, fmt.Errorf("Unknown magic %x", reader.currentBlock.typ)
+	}
+	if err != nil {
+		return nil, err
 	}
 
 	if err = reader.readSectionHeader(); err != nil {
@@ -125,7 +126,30 @@ func (r *NgReader) readBytes(buffer []byte) (uint, error) {
 	return n, nil
 }
 
+// bodyLength returns the number of bytes left in the body of the current block. The body is followed by the trailing block total length, which is not part of it.
+func (r *NgReader) bodyLength() uint32 {
+	if r.currentBlock.length < 4 {
+		return 0
+	}
+	return r.currentBlock.length - 4
+}
+
+// readBody fills buffer from the body of the current block. It is an error if the block is too short to contain the requested data.
+func (r *NgReader) readBody(buffer []byte) error {
+	if uint32(len(buffer)) > r.bodyLength() {
+		return errNgBlockTooShort
+	}
+	if _, err := r.readBytes(buffer); err != nil {
+		return err
+	}
+	r.currentBlock.length -= uint32(len(buffer))
+	return nil
+}
+
 func (r *NgReader) discard(length int) error {
+	if length < 0 || uint32(length) > r.currentBlock.length {
+		return errNgBlockTooShort
+	}
 	if _, err := r.r.Discard(length); err != nil {
 		if err == io.EOF {
 			return io.ErrUnexpectedEOF
@@ -183,26 +207,35 @@ func (r *NgReader) readBlock() error {
 		} else {
 			return errors.New("Wrong byte order value in Section Header")
 		}
+		// A section header consists at least of type, length, byteOrderMagic, version, section length, and the trailing length
+		length := r.getUint32(r.buf[4:8])
+		if length < 28 || length%4 != 0 {
+			return fmt.Errorf("%w %d of section header", errNgInvalidBlockLength, length)
+		}
 		// Set length to remaining length (length - (type + lengthfield = 8) - 4 for byteOrderMagic)
-		r.currentBlock.length = r.getUint32(r.buf[4:8]) - 8 - 4
+		r.currentBlock.length = length - 8 - 4
 		return nil
 	}
+	// A block consists at least of type, length, and the trailing length, and is padded to 32 bits
+	length := r.getUint32(r.buf[4:8])
+	if length < 12 || length%4 != 0 {
+		return fmt.Errorf("%w %d", errNgInvalidBlockLength, length)
+	}
 	// Set length to remaining length (length - (type + lengthfield = 8)
-	r.currentBlock.length = r.getUint32(r.buf[4:8]) - 8
+	r.currentBlock.length = length - 8
 	return nil
 }
 
 // readOption reads a single arbitrary option (type and value). If there is no space left for options and end of options is missing, it is faked.
 func (r *NgReader) readOption() error {
-	if r.currentBlock.length == 4 {
+	if r.bodyLength() == 0 {
 		// no more options
 		r.currentOption.code = ngOptionCodeEndOfOptions
 		return nil
 	}
-	if _, err := r.readBytes(r.buf[:4]); err != nil {
+	if err := r.readBody(r.buf[:4]); err != nil {
 		return err
 	}
-	r.currentBlock.length -= 4
 	r.currentOption.code = ngOptionCode(r.getUint16(r.buf[:2]))
 	length := r.getUint16(r.buf[2:4])
 	if r.currentOption.code == ngOptionCodeEndOfOptions {
@@ -215,23 +248,27 @@ func (r *NgReader) readOption() error {
 		// an empty value must not leave the previous option's bytes behind
 		r.currentOption.value = r.currentOption.value[:0]
 	} else {
+		padding := length % 4
+		if padding > 0 {
+			padding = 4 - padding
+		}
+		if uint32(length)+uint32(padding) > r.bodyLength() {
+			return errors.New("Option length exceeds block length")
+		}
 		if length < uint16(cap(r.currentOption.value)) {
 			r.currentOption.value = r.currentOption.value[:length]
 		} else {
 			r.currentOption.value = make([]byte, length)
 		}
-		if _, err := r.readBytes(r.currentOption.value); err != nil {
+		if err := r.readBody(r.currentOption.value); err != nil {
 			return err
 		}
 		//consume padding
-		padding := length % 4
 		if padding > 0 {
-			padding = 4 - padding
 			if err := r.discard(int(padding)); err != nil {
 				return err
 			}
 		}
-		r.currentBlock.length -= uint32(length)
 	}
 	return nil
 }
@@ -254,10 +291,9 @@ func (r *NgReader) readSectionHeader() error {
 
 RESTART:
 	// read major, minor, section length
-	if _, err := r.readBytes(r.buf[:12]); err != nil {
+	if err := r.readBody(r.buf[:12]); err != nil {
 		return err
 	}
-	r.currentBlock.length -= 12
 
 	vMajor := r.getUint16(r.buf[0:2])
 	vMinor := r.getUint16(r.buf[2:4])
@@ -377,10 +413,9 @@ func (r *NgReader) firstInterface() error {
 
 // readInterfaceDescriptor parses an interface descriptor, prepares timing calculation, and adds the interface details to the current list
 func (r *NgReader) readInterfaceDescriptor() error {
-	if _, err := r.readBytes(r.buf[:8]); err != nil {
+	if err := r.readBody(r.buf[:8]); err != nil {
 		return err
 	}
-	r.currentBlock.length -= 8
 	var intf NgInterface
 	intf.LinkType = layers.LinkType(r.getUint16(r.buf[:2]))
 	intf.SnapLength = r.getUint32(r.buf[4:8])
@@ -447,10 +482,9 @@ func (r *NgReader) convertTime(ifaceID int, ts uint64) (int64, int64) {
 
 // readInterfaceStatistics updates the statistics of the given interface
 func (r *NgReader) readInterfaceStatistics() error {
-	if _, err := r.readBytes(r.buf[:12]); err != nil {
+	if err := r.readBody(r.buf[:12]); err != nil {
 		return err
 	}
-	r.currentBlock.length -= 12
 	ifaceID := int(r.getUint32(r.buf[:4]))
 	ts := uint64(r.getUint32(r.buf[4:8]))<<32 | uint64(r.getUint32(r.buf[8:12]))
 	if int(ifaceID) >= len(r.ifaces) {
@@ -503,10 +537,9 @@ FIND_PACKET:
 		}
 		switch r.currentBlock.typ {
 		case ngBlockTypeEnhancedPacket:
-			if _, err := r.readBytes(r.buf[:20]); err != nil {
+			if err := r.readBody(r.buf[:20]); err != nil {
 				return err
 			}
-			r.currentBlock.length -= 20
 			r.ci.InterfaceIndex = int(r.getUint32(r.buf[:4]))
 			if r.ci.InterfaceIndex >= len(r.ifaces) {
 				return fmt.Errorf("Interface id %d not present in section (have only %d interfaces)", r.ci.InterfaceIndex, len(r.ifaces))
@@ -516,10 +549,9 @@ FIND_PACKET:
 			r.ci.Length = int(r.getUint32(r.buf[16:20]))
 			break FIND_PACKET
 		case ngBlockTypeSimplePacket:
-			if _, err := r.readBytes(r.buf[:4]); err != nil {
+			if err := r.readBody(r.buf[:4]); err != nil {
 				return err
 			}
-			r.currentBlock.length -= 4
 			r.ci.Timestamp = time.Time{}
 			r.ci.InterfaceIndex = 0
 			r.ci.Length = int(r.getUint32(r.buf[:4]))
@@ -544,10 +576,9 @@ FIND_PACKET:
 				return err
 			}
 		case ngBlockTypePacket:
-			if _, err := r.readBytes(r.buf[:20]); err != nil {
+			if err := r.readBody(r.buf[:20]); err != nil {
 				return err
 			}
-			r.currentBlock.length -= 20
 			r.ci.InterfaceIndex = int(r.getUint16(r.buf[0:2]))
 			if r.ci.InterfaceIndex >= len(r.ifaces) {
 				return fmt.Errorf("Interface id %d not present in section (have only %d interfaces)", r.ci.InterfaceIndex, len(r.ifaces))
